@@ -44,4 +44,13 @@ LinesFrom(s, p, q) ==       \* spans as <<start position, end position>>
   ELSE << <<LineStart(s, p), LineEnd(s, p)>> >> \o LinesFrom(s, LineEnd(s, p), q)
 
 SpanOk(s, a, b) == a \in Boundaries(s) /\ b \in Boundaries(s) /\ a <= b
+
+\* ---- the algebra of spans (byte offsets): what Span::get, Span::split, Position::span and merge_spans answer
+\* Span::get on the span [a, b) with the relative byte range [i, j): the sub-span, or nothing (<<>>) unless both ends
+\* are boundaries inside the span and in order
+SubSpan(s, a, b, i, j) == IF i <= j /\ a + j <= b /\ SpanOk(s, a + i, a + j) THEN <<a + i, a + j>> ELSE <<>>
+\* merge_spans: the hull of two spans that overlap or touch, nothing otherwise
+MinN(x, y) == IF x <= y THEN x ELSE y
+MaxN(x, y) == IF x >= y THEN x ELSE y
+Merged(a, b, c, d) == IF b >= c /\ a <= d THEN <<MinN(a, c), MaxN(b, d)>> ELSE <<>>
 ===============================================================================
